@@ -201,6 +201,34 @@ class Analysis:
                     out.append(p[0])
         return out
 
+    def replace_table_table(self):
+        """G5: per class, the attributes its nodes_() walks (term-holding children) and the attributes its
+        replace_table() rewrites (MRO-resolved; the inherited Term.replace_table rewrites nothing)"""
+        rows = []
+        for cls in sorted(self.classes):
+            if self.classes[cls]["module"] not in ("terms", "functions", "queries", "dialects"):
+                continue
+            _, nf = self.find_method(cls, "nodes_")
+            _, rf = self.find_method(cls, "replace_table")
+            if nf is None and rf is None:
+                continue
+            walked = []
+            if nf is not None:
+                for n in ast.walk(nf):
+                    if isinstance(n, ast.Attribute) and isinstance(n.value, ast.Name) and n.value.id == "self" and n.attr not in walked:
+                        if n.attr not in ("nodes_",):
+                            walked.append(n.attr)
+            replaced = []
+            if rf is not None:
+                for n in ast.walk(rf):
+                    if isinstance(n, ast.Assign):
+                        for t in n.targets:
+                            r, p = self.root_path(t)
+                            if r in ("self", "newone") and p and p[0] not in replaced:
+                                replaced.append(p[0])
+            rows.append({"cls": cls, "walked": sorted(walked), "replaced": sorted(replaced)})
+        return rows
+
     def report(self):
         builders, observers, classes = [], [], []
         for cls in sorted(self.classes):
@@ -222,7 +250,7 @@ class Analysis:
             for m, (c, f) in sorted(om.items()):
                 observers.append({"cls": cls, "method": m, "effects": [e for e in self.effects_of(cls, f)],
                                   "set_iter": self.set_iterations(cls, f)})
-        return {"classes": classes, "builders": builders, "observers": observers}
+        return {"classes": classes, "builders": builders, "observers": observers, "replace": self.replace_table_table()}
 
 
 def lean_s(s):
@@ -263,6 +291,11 @@ def render(rep):
     w("def observerEffects : List (Str × Str × List Eff × List Str) := [")
     w(",\n".join("  (%s, %s, %s, [%s])" % (lean_s(o["cls"]), lean_s(o["method"]), effs(o["effects"]),
                                           ", ".join(lean_s(x) for x in o["set_iter"])) for o in rep["observers"]) + "]")
+    w("")
+    w("/-- (class, attributes walked by nodes_(), attributes rewritten by replace_table()) -/")
+    w("def replaceTable : List (Str × List Str × List Str) := [")
+    w(",\n".join("  (%s, [%s], [%s])" % (lean_s(r["cls"]), ", ".join(lean_s(x) for x in r["walked"]), ", ".join(lean_s(x) for x in r["replaced"]))
+                 for r in rep["replace"]) + "]")
     w("")
     w("end Pypika.Gen")
     return "\n".join(L) + "\n"
